@@ -28,6 +28,7 @@ func init() {
 			"R02.3 also: the authenticator always receives a fresh security.ScopedAuthRequest; R02.6 also: each alternative's scheme list and scopes table are allocated inside that alternative's iteration. " +
 			"R02.2 also: AuthenticatorsFor reads the registry under the security definition's own name, never a key taken from the scheme. " +
 			"R02.5 also: a 403 replaces the authorizer's error only when that error is no errors.Error; R02.6 also: the scope union visits every entry of every list. " +
+			"R02.2 also: every definition handed to AuthenticatorsFor is looked up in the registry. " +
 			"NOT decided: behaviour of user-supplied authenticators/authorizers; the content of the analyzed spec (go-openapi/analysis).",
 		Assumptions: []string{"analysis.Spec.SecurityRequirementsFor returns the operation's requirement alternatives as documented"},
 		Run:         runC02,
